@@ -21,6 +21,9 @@ Import ListNotations.
 Definition place := nat.
 Definition region := (nat * nat)%type.
 
+(* the 64-bit reading of `+` / `*` (gen/RingGenCk.v): overflow panic when the result reaches the modulus M *)
+Definition uadd (M a b : nat) : res nat := if a + b <? M then Ok (a + b) else Panic POverflow.
+Definition umul (M a b : nat) : res nat := if a * b <? M then Ok (a * b) else Panic POverflow.
 Definition usub (a b : nat) : res nat := if a <? b then Panic POverflow else Ok (a - b).
 Definition urem (a n : nat) : res nat := if n =? 0 then Panic PDivZero else Ok (a mod n).
 Definition udiv (a n : nat) : res nat := if n =? 0 then Panic PDivZero else Ok (a / n).
